@@ -239,3 +239,22 @@ class Report:
         with open(os.path.join(EVIDENCE, self.prop + '.json'), 'w') as f:
             json.dump(ev, f, indent=1, default=str)
         return 1 if self.violations else 0
+
+
+def parse_sx(s):
+    """parse one S-expression of the driver protocol into nested lists of atoms (strings)"""
+    toks = s.replace('(', ' ( ').replace(')', ' ) ').split()
+    pos = 0
+
+    def go():
+        nonlocal pos
+        t = toks[pos]
+        pos += 1
+        if t == '(':
+            out = []
+            while toks[pos] != ')':
+                out.append(go())
+            pos += 1
+            return out
+        return t
+    return go()
